@@ -253,3 +253,39 @@ def check_thread_outcome(kind: int, idx: int, first: int) -> bool:
     import mpservice.threading as mt
     d, nd = mt.wait([t])
     return t in d and not nd and list(mt.as_completed([t])) == [t]
+
+
+def check_process_dies_by_itself(kind: int, idx: int, phase: int, code: int, first: int) -> bool:
+    """
+    pre: 0 <= kind <= 1 and 0 <= idx <= 1 and 0 <= phase <= 1 and 0 <= code <= 2 and 0 <= first <= 3
+    twin-pre: code == 1
+    post: _
+    """
+    # The child ends on its own with a non-zero status before both messages crossed the pipe (its result or its
+    # exception could not be pickled -> exit status 1; the target called os._exit(n)): EOF on the pipe with a
+    # POSITIVE exit status.  That is a failure of the process and must surface as an error, never as "returned None".
+    kind, idx, phase, first = conc(kind, 0, 1), conc(idx, 0, 1), conc(phase, 0, 1), conc(first, 0, 3)
+    status = [1, 3, 120][conc(code, 0, 2)]
+    msgs, _ = run_child(kind, idx)
+    p = parent_after(msgs, phase, status)
+    if not p._future_.done():
+        return False
+    for a in [first, (first + 1) % 4, (first + 2) % 4, (first + 3) % 4]:
+        got_exc = None
+        try:
+            if a == 0:
+                p.join()
+            elif a == 1:
+                p.result()
+            elif a == 2:
+                got_exc = p.exception()
+            else:
+                done, not_done = mpm.wait([p])
+                if p not in done or not_done:
+                    return False
+                continue
+        except BaseException as e:
+            got_exc = e
+        if not isinstance(got_exc, OSError):
+            return False
+    return p.done() and p.exitcode == status
